@@ -66,6 +66,24 @@ def run(tier):
     res.require(term_contains(db, lambda x: is_call(x, 'RadioBuffer::as_mut_for_read')) and term_contains(db, lambda x: x == ('param', rx)),
                 'C05:handle_rx:decrypt-buffer', 'decrypt_in_place not applied to the receive buffer', short_site(bf, bbd), 'SAME-VALUE(buffer)',
                 instance='decrypt_in_place on rx buffer')
+    # DIRECTION: the MIC is computed with the frame's own direction bit, so an uplink frame (the device's own one echoed back, with its
+    # uplink counter) verifies under the same key. Only a downlink message type may reach the MIC check and everything behind it.
+    def downlink_only(cnd):
+        tm_ = cnd[0]
+        if not isinstance(tm_, tuple):
+            return False
+        up = term_contains(tm_, lambda x: isinstance(x, tuple) and x[:1] == ('call',) and isinstance(x[1], str) and x[1].endswith('::is_uplink'))
+        down = term_contains(tm_, lambda x: isinstance(x, tuple) and x[:1] == ('call',) and isinstance(x[1], str) and x[1].endswith('::is_downlink'))
+        on_frame = term_contains(tm_, lambda x: is_call(x, 'EncryptedDataPayload::parse'))
+        if up and on_frame and tm_[:1] == ('call',):
+            return rules.cond_false(cnd)
+        if down and on_frame and tm_[:1] == ('call',):
+            return rules.cond_true(cnd)
+        # a match on the message type of the parsed frame
+        return tm_[:1] == ('discr',) and on_frame and term_contains(tm_, lambda x: isinstance(x, tuple) and x[:1] == ('call',) and isinstance(x[1], str) and x[1].endswith(('::frame_type', '::mtype', '::mhdr')))
+    res.require(any(downlink_only(cnd) for cnd in rules.path_conditions(bf, bbm)), 'C05:handle_rx:downlink-only',
+                'the MIC of a received frame is checked whatever its message type: the MIC uses the frame\'s own direction, so the device\'s own uplink echoed back into a receive window verifies, advances FCntDown '
+                'and is delivered / executed as a downlink', short_site(bf, bbm), 'DOM(message type is a downlink => validate_mic)', instance='handle_rx: only downlink message types reach the MIC check')
     # MIC key: DefaultCrypto::new(self.nwkskey.inner())
     k = term_of_operand(bf, tm.args[1])
     key_ok = term_contains(k, lambda x: x == ('field', ('deref', ('param', self_)), 'nwkskey')) and \
